@@ -9,6 +9,7 @@ package main
 import (
 	"fmt"
 	"runtime"
+	"runtime/debug"
 
 	"github.com/openacid/low/bitstr"
 	"github.com/openacid/low/bitword"
@@ -90,6 +91,9 @@ func init() {
 func init() {
 	reg("cmpuptoprobe", func(a []string) string {
 		la, seed := int(mustI64(a[0])), mustU64(a[1])
+		if la >= 1<<26 {
+			debug.FreeOSMemory()
+		}
 		big := make([]byte, la)
 		for k := uint64(0); k < 24; k++ {
 			for i := 0; i < 16 && i < la; i++ {
